@@ -117,7 +117,7 @@ theorem step1_inv {d : Disc} (hd : d.ok = true) {c : Cfg} {s s' : S} (hp : PInv 
     split at h
     · rename_i k v hk; cases h
       have ht := hp.thr t; rw [hk] at ht
-      exact pinv_local hp t _ s.lin (fun _ _ => rfl) (by rw [hk]; rfl) (Or.inr (Or.inl rfl)) (ht.2 v rfl)
+      exact pinv_local hp t _ s.lin (fun _ _ => rfl) (by rw [hk]; rfl) (Or.inr (Or.inl rfl)) ⟨ht.2 v rfl, Or.inl ht.1⟩
     · cases h
   | pReturn t =>
     simp only [step1] at h
@@ -135,7 +135,7 @@ theorem step1_inv {d : Disc} (hd : d.ok = true) {c : Cfg} {s s' : S} (hp : PInv 
       exact pinv_excl hok hp t _ s.mem _ (.insert t k id :: s.lin) ((k, id) :: s.stored) (fun u _ => hf u)
         (fun u hu => lastOf_cons_other (fun e => hu e.symm)) (fun a ha => List.mem_cons_of_mem _ ha) hp.len
         (AbsOK_insert (AbsOK_mono (fun a ha => List.mem_cons_of_mem _ ha) hp.absok) k id List.mem_cons_self)
-        (fun hw => by simp [T.writing] at hw) ⟨List.mem_cons_self, by rw [hma]⟩
+        (fun hw => by simp [T.writing] at hw) ⟨lastOf_cons_self, List.mem_cons_self, by rw [hma]⟩
     · cases h
   | wKey t =>
     simp only [step1] at h
@@ -145,7 +145,7 @@ theorem step1_inv {d : Disc} (hd : d.ok = true) {c : Cfg} {s s' : S} (hp : PInv 
       exact pinv_excl hok hp t _ _ s.abs s.lin s.stored (others_none hp t (by rw [hk]; exact hok.insert))
         (fun _ _ => rfl) (fun _ ha => ha) (LenOK_modSlot hp.len _ _ (hp.len _)) hp.absok
         (fun hw => by simp [T.writing] at hw)
-        ⟨ht.1, Nat.zero_le _, by rw [insert_modSlot]; exact ht.2, by rw [modSlot_same], by simp⟩
+        ⟨ht.1, ht.2.1, Nat.zero_le _, by rw [insert_modSlot]; exact ht.2.2, by rw [modSlot_same], by simp⟩
     · cases h
   | wWord t =>
     simp only [step1] at h
@@ -154,12 +154,12 @@ theorem step1_inv {d : Disc} (hd : d.ok = true) {c : Cfg} {s s' : S} (hp : PInv 
       split at h
       · rename_i hi; cases h
         have ht := hp.thr t; rw [hk] at ht
-        obtain ⟨h1, _, h3, h4, h5⟩ := ht
+        obtain ⟨h0, h1, _, h3, h4, h5⟩ := ht
         have hl := hp.len (c.idx k)
         refine pinv_excl hok hp t _ _ s.abs s.lin s.stored (others_none hp t (by rw [hk]; exact hok.insert))
           (fun _ _ => rfl) (fun _ ha => ha) (LenOK_modSlot hp.len _ _ (by simp [hl])) hp.absok
           (fun hw => by simp [T.writing] at hw)
-          ⟨h1, hi, by rw [insert_modSlot]; exact h3, by rw [modSlot_same]; exact h4, ?_⟩
+          ⟨h0, h1, hi, by rw [insert_modSlot]; exact h3, by rw [modSlot_same]; exact h4, ?_⟩
         rw [modSlot_same]
         simp only
         rw [List.take_add_one, List.take_set_of_le (Nat.le_refl i), h5, List.replicate_succ']
@@ -174,7 +174,7 @@ theorem step1_inv {d : Disc} (hd : d.ok = true) {c : Cfg} {s s' : S} (hp : PInv 
       split at h
       · rename_i hi; cases h
         have ht := hp.thr t; rw [hk] at ht
-        obtain ⟨h1, _, h3, h4, h5⟩ := ht
+        obtain ⟨h0, h1, _, h3, h4, h5⟩ := ht
         have hl := hp.len (c.idx k)
         have hwords : (s.mem.tab (c.idx k)).words = val c k id := by
           subst hi; rw [← take_all _ c.L hl, h5]; rfl
@@ -191,7 +191,7 @@ theorem step1_inv {d : Disc} (hd : d.ok = true) {c : Cfg} {s s' : S} (hp : PInv 
               simp [Mem.insert, setSlot, e]
         exact pinv_excl hok hp t _ _ s.abs s.lin s.stored (others_none hp t (by rw [hk]; exact hok.insert))
           (fun _ _ => rfl) (fun _ ha => ha) (LenOK_modSlot hp.len _ _ hl) hp.absok
-          (fun _ => heq) ⟨h1, heq⟩
+          (fun _ => heq) ⟨h0, h1, heq⟩
       · cases h
     · cases h
   | wRelease t =>
@@ -200,10 +200,10 @@ theorem step1_inv {d : Disc} (hd : d.ok = true) {c : Cfg} {s s' : S} (hp : PInv 
     · rename_i k id p hk; cases h
       have ht := hp.thr t; rw [hk] at ht
       refine pinv_excl hok hp t _ s.mem s.abs s.lin s.stored (others_none hp t (by rw [hk]; exact hok.insert))
-        (fun _ _ => rfl) (fun _ ha => ha) hp.len hp.absok (fun _ => ht.2) ?_
+        (fun _ _ => rfl) (fun _ ha => ha) hp.len hp.absok (fun _ => ht.2.2) ?_
       cases p
       · trivial
-      · exact ⟨id, ht.1, rfl⟩
+      · exact ⟨⟨id, ht.2.1, rfl⟩, Or.inr ⟨id, ht.1, rfl⟩⟩
     · cases h
   | cAcquire t =>
     simp only [step1] at h
